@@ -121,12 +121,18 @@ def check_file(ctx, mods, label, parts, opts):
         results.append(r)
         sevs.append(r.severity)
     # face: an Analyzer built by hand from the registered analyses, and the result object's own views
-    for part, r in zip(parts, results):
+    shapes = {"list": lambda: list(analysis.Analysis.ALL), "generator": lambda: (a for a in analysis.Analysis.ALL),
+              "tuple": lambda: tuple(analysis.Analysis.ALL), "iterator": lambda: iter(list(analysis.Analysis.ALL)),
+              "reversed-twice": lambda: reversed(list(reversed(list(analysis.Analysis.ALL))))}
+    shape = sorted(shapes)[int(key[:2], 16) % len(shapes)]
+    one_analyzer = analysis.Analyzer(shapes[shape]())         # one hand-built analyzer for all pickles of the file
+    for part, r in list(zip(parts, results)) * 2:
         try:
-            r2 = analysis.check_safety(f.Pickled.load(part), analyzer=analysis.Analyzer(analysis.Analysis.ALL))
+            r2 = analysis.check_safety(f.Pickled.load(part), analyzer=one_analyzer)
             agg.count("fresh_analyzer_runs")
             if r2.severity != r.severity or sorted(str(x) for x in r2.results) != sorted(str(x) for x in r.results):
-                agg.violation("face:fresh-analyzer", f"an Analyzer built from the registered analyses gives {r2.severity.name}, "
+                agg.violation("face:fresh-analyzer", f"an Analyzer built from the registered analyses (given as {shape}, used for "
+                                                     f"every pickle of the file) gives {r2.severity.name}, "
                                                      f"the default one {r.severity.name} (or other findings)",
                               {"label": label, "parts_hex": [part.hex()], "severities": [r.severity.name, r2.severity.name]})
         except Exception as e:
